@@ -1,6 +1,6 @@
 use std::fmt;
 
-use syn::Lit;
+use syn::{Expr, Lit, Meta};
 
 use crate::ast::NestedMeta;
 use crate::{FromMeta, Result};
@@ -141,8 +141,21 @@ impl<T: FromMeta> FromMeta for Override<T> {
         Ok(Inherit)
     }
 
+    /// Every form other than the bare word is handed to `T` as-is, so that inner types which
+    /// override `from_meta` (e.g. `Option`) accept exactly what they accept on their own.
+    fn from_meta(item: &Meta) -> Result<Self> {
+        match item {
+            Meta::Path(_) => Self::from_word(),
+            _ => T::from_meta(item).map(Explicit),
+        }
+    }
+
     fn from_list(items: &[NestedMeta]) -> Result<Self> {
         Ok(Explicit(FromMeta::from_list(items)?))
+    }
+
+    fn from_expr(expr: &Expr) -> Result<Self> {
+        Ok(Explicit(FromMeta::from_expr(expr)?))
     }
 
     fn from_value(lit: &Lit) -> Result<Self> {
